@@ -43,6 +43,8 @@ def main():
     ap.add_argument("--tier", default="quick")
     ap.add_argument("--keep", action="store_true")
     ap.add_argument("--skip-confirm", action="store_true")
+    ap.add_argument("--base", help="commit the patch was written against (default: 764040e for variants a/b = round 1, "
+                                   "/repo HEAD for later rounds)")
     args = ap.parse_args()
     pid = args.pid.upper()
     src = args.src or "/tmp/seed-out/%s/%s" % (pid, args.variant)
@@ -53,10 +55,13 @@ def main():
     wt = "/tmp/wt-%s" % pid
     report = {"property": pid, "variant": args.variant}
     if not args.skip_confirm:
+        base = args.base or ("764040e" if args.variant in ("a", "b") else sh(["git", "-C", "/repo", "rev-parse", "HEAD"])[1].strip())
+        report["base"] = base
         if not os.path.isdir(wt):
-            sh(["git", "-C", "/repo", "worktree", "add", "--detach", wt, "764040e", "-q"])
+            sh(["git", "-C", "/repo", "worktree", "add", "--detach", wt, base, "-q"])
         sh(["git", "-C", wt, "checkout", "--", "."])
         sh(["git", "-C", wt, "clean", "-fdq"])
+        sh(["git", "-C", wt, "checkout", "-q", "--detach", base])
         env = dict(os.environ, PYTHONPATH=wt)
         rc0, out0 = sh([PY, demo], cwd=wt, env=env)
         report["demo_clean_rc"] = rc0
@@ -113,7 +118,7 @@ def main():
         meta.update({"breaks_property": pid, "variant": args.variant,
                      "needs_to_manifest": meta.get("needs_to_manifest", "see notes.md"),
                      "confirmed": {k: report.get(k) for k in ("demo_clean_rc", "demo_patched_rc", "suite_with_patch",
-                                                              "suite_same_13_failures", "patch_applies_to_baseline", "confirmed")
+                                                              "suite_same_13_failures", "patch_applies_to_baseline", "confirmed", "base")
                                    if k in report} or meta.get("confirmed"),
                      "what_was_run": ["demo.py on clean and patched scratch worktree", "repository test-suite on patched worktree",
                                       "git -C /repo apply patch.diff; ./check <prop> --tier %s; git -C /repo checkout -- ." % args.tier]})
